@@ -766,6 +766,20 @@ def run(ck: Checker):
 
     with ck.as_rule('C05-12', 'join() of a helper thread means the thread has ended: the join of mpservice.threading.Thread (which the stream generators use for their feeders and workers) returns normally only after the OS-level join — an outcome that is already known is no reason to skip it (the C12-4 obligations of the accessors)', minimum=3):
         _c12.check_accessors(ck, 'C12-4')
+    ck.rule('C05-13', 'stopping early ends every stage: the __iter__ / __aiter__ of every streamlet over an upstream (`self._instream`) is a generator function — closing it (or dropping it) closes the upstream, and a failure of the user function ends the iteration; a plain iterator object (`map(...)`, `filter(...)`) has no close(), keeps going after a failure, and leaves the helper threads of upstream stages alive', minimum=10)
+    for rel13 in (STREAMER, STREAMER_ASYNC):
+        for c13 in ck.repo.module(rel13).classes.values():
+            for m13 in c13.methods():
+                if m13.name not in ('__iter__', '__aiter__'):
+                    continue
+                if not any(isinstance(x, ast.Attribute) and dotted(x) == 'self._instream' for x in ast.walk(m13.node)):
+                    continue
+                own13 = [x for x in walk_shallow_func(m13.node) if isinstance(x, (ast.Yield, ast.YieldFrom))]
+                rets13 = [r for r in walk_shallow_func(m13.node) if isinstance(r, ast.Return) and r.value is not None]
+                # delegation to another streamlet / generator of the package is a generator as well
+                deleg13 = [r for r in rets13 if isinstance(r.value, ast.Call) and (dotted(r.value.func) or '').split('.')[-1] not in ('map', 'filter', 'iter', 'zip', 'enumerate', 'list', 'tuple') ]
+                ok13 = bool(own13) or (bool(rets13) and len(deleg13) == len(rets13))
+                ck.ob('C05-13', m13, rets13[0] if rets13 and not ok13 else m13.node, ok13, 'a generator function' if ok13 else f'`{norm_text(rets13[0])[:60] if rets13 else m13.qualname}` hands out a plain iterator: it cannot be closed, it goes on after a failure of the user function, and the upstream stages are not ended when the consumer stops')
     ck.rule('C05-7', 'no source pull is in flight while a stream generator is suspended: the sync-to-async adapter awaits each `run_in_executor(None, next, source)` in the statement that starts it — a pull started ahead of the consumer\'s request is still running in a helper thread after an early stop (one element is taken and lost, the source generator cannot be closed, the default executor cannot shut down)')
     check_no_prefetch(ck, 'C05-7')
     ck.rule('C05-8', 'the hand-off queue cannot lose a wake-up: the SingleLane obligations (C01-4, C09-6) decided here, because a lost wake-up leaves the producer parked in put() while the finaliser of buffer / fifo_stream waits for it for ever', minimum=3)
